@@ -64,8 +64,10 @@ pub fn cause_op2(g: &mut G, id: Id, k: KindTag) -> Option<Op> {
             _ => Op::PingChild(id, g.rng.below(4) as u32),
         }),
         KindTag::Transient => Some(match g.rng.below(10) {
-            0 | 1 => Op::TrRemove(id),
-            2 | 3 => Op::TrReplace(id, if g.rng.chance(2, 3) { ChildSpec::Sock } else { ChildSpec::Timer(Deadline::In(g.rng.range(0, 20) * crate::gen::MS)) }),
+            0 => Op::TrRemove(id),
+            1 => Op::TrRemoveLazy(id),
+            2 => Op::TrReplace(id, if g.rng.chance(2, 3) { ChildSpec::Sock } else { ChildSpec::Timer(Deadline::In(g.rng.range(0, 20) * crate::gen::MS)) }),
+            3 => Op::TrReplaceLazy(id, if g.rng.chance(2, 3) { ChildSpec::Sock } else { ChildSpec::Timer(Deadline::In(g.rng.range(0, 20) * crate::gen::MS)) }),
             4 => Op::TrMap(id),
             _ => Op::PeerWrite(id, 1),
         }),
